@@ -949,12 +949,12 @@ Proof.
   unfold mt_add. cbn [mt_db mt_root mt_level mt_cap]. rewrite path_length.
   pose proof (min_proof_len_le (lv (length xs)) (N.of_nat k)).
   destruct (Nat.ltb_spec (lv (length xs)) (min_proof_len (lv (length xs)) (N.of_nat k))) as [|_]; [lia|].
-  rewrite Nat.sub_diag. cbn [skipn].
+  rewrite Nat.ltb_irrefl, Nat.sub_diag.
   destruct (mt_add_loop_ok m0 xs k (N.of_nat k) Fx (Nat2N.id k) Hk (lv (length xs)) [r] 0 [] []
               eq_refl (top_digit xs k _ (Nat2N.id k) Hk HL r El)) as (br' & nodes & E2 & E3).
   cbn [app] in E2. rewrite E2. unfold node_get. rewrite E3, Hx. cbn [obytes].
   rewrite bytes_eqb_refl. cbn [negb Nat.ltb].
-  destruct (put_all_ok nodes m0) as (m' & ->). change (0 <? 0) with false. cbv iota. eauto.
+  destruct (put_all_ok nodes m0) as (m' & ->). eauto.
 Qed.
 
 (* binding: two accepted full proofs for the same key agree, or the hash collides *)
@@ -1013,7 +1013,7 @@ Theorem mt_add_binding vt key h p h' p' vt1 vt2 :
   (h = h' /\ p = p') \/ collision.
 Proof.
   intros Lp Lp' E E'. unfold mt_add in E, E'. rewrite Lp in E. rewrite Lp' in E'.
-  destruct (Nat.ltb _ _); [discriminate|]. rewrite Nat.sub_diag in E, E'. cbn [skipn] in E, E'.
+  destruct (Nat.ltb _ _); [discriminate|]. rewrite Nat.ltb_irrefl, Nat.sub_diag in E, E'.
   destruct (mt_add_loop H (mt_db vt) (mt_root vt) (mt_level vt) key 0 0 p []) as [[b nodes]|] eqn:L1; [|discriminate].
   destruct (mt_add_loop H (mt_db vt) (mt_root vt) (mt_level vt) key 0 0 p' []) as [[b' nodes']|] eqn:L2; [|discriminate].
   destruct (mt_add_loop_binding (mt_db vt) key (mt_level vt) (mt_root vt) 0 [] [] p p' [] [] b b' nodes nodes'
@@ -1420,6 +1420,21 @@ Proof.
   intros Lp Lp' E Hne. destruct (mt_add H vt key h' p') as [vt2|e] eqn:E'.
   - destruct (mt_add_binding vt key h p h' p' vt1 vt2 Lp Lp' E E') as [[-> ->]|C]; [congruence|right; exact C].
   - left. intros vt2 X. discriminate.
+Qed.
+
+(* a proof with more elements than the tree has levels is a verification error *)
+Theorem overlong_rejected vt key h p : mt_level vt < length p -> mt_add H vt key h p = HErr HVerify.
+Proof.
+  intro Hl. unfold mt_add. destruct (Nat.ltb _ _); [reflexivity|].
+  destruct (Nat.ltb_spec (mt_level vt) (length p)); [reflexivity|lia].
+Qed.
+
+(* the code before /repo 33272cd crashed on such a proof although everything it checked was genuine *)
+Lemma mt_add_old_refuted :
+  exists vt key h p, mt_level vt < length p /\ mt_add_old H vt key h p = HErr HPanic.
+Proof.
+  exists (mkMtree bm_empty 0 [repeat 1%N 32] 1%N), 0%N, (repeat 1%N 32), [repeat 0%N 32].
+  split; [cbn; lia|reflexivity].
 Qed.
 
 Theorem rewind ops l : Forall hop_ok ops -> (N.of_nat (adds ops) < 2 ^ 63)%N -> l <= length (hseq ops) ->
